@@ -17,6 +17,7 @@ CONSTANTS
   Profile = "%s"
   Fuel = 6
   Steer = %s
+  WithImport = %s
 CONSTRAINT Closable
 INVARIANT EmitCase
 CHECK_DEADLOCK FALSE
@@ -33,7 +34,7 @@ SIM = {"quick": (400, 40), "thorough": (8000, 60)}
 def generate(ctx, plan, sim):
     cases = []
     for prof, ml, md, steer in plan:
-        r = C.tlc("MC_Eval", cfg_text=CFG % (ml, md, prof, steer), workers=10, timeout=3000, metaname="eval-" + prof)
+        r = C.tlc("MC_Eval", cfg_text=CFG % (ml, md, prof, steer, "FALSE"), workers=10, timeout=3000, metaname="eval-" + prof)
         C.tlc_must_pass(r, "MC_Eval/" + prof)
         ctx.add_tlc(r)
         for c in r.cases:
@@ -41,7 +42,7 @@ def generate(ctx, plan, sim):
         cases.extend(r.cases)
     if sim:
         num, depth = sim
-        r = C.tlc("MC_Eval", cfg_text=CFG % (16, 4, "full", "TRUE"), workers=8, simulate=num, depth=depth,
+        r = C.tlc("MC_Eval", cfg_text=CFG % (16, 4, "full", "TRUE", "FALSE"), workers=8, simulate=num, depth=depth,
                   seed=ctx.seed, timeout=3000, metaname="eval-sim")
         if r.rc not in (0,):
             C.tlc_must_pass(r, "MC_Eval/simulate")
